@@ -43,12 +43,23 @@ orc_target_get_by_name (const char *name)
 OrcTarget *
 orc_target_get_default (void)
 {
-  const char *const envvar = _orc_getenv ("ORC_BACKEND");
+  /* ORC_TARGET is the documented name, ORC_BACKEND the one this function
+   * used to read */
+  static const char *const names[] = { "ORC_TARGET", "ORC_BACKEND" };
+  unsigned int i;
 
-  if (envvar != NULL) {
-    OrcTarget *const target = orc_target_get_by_name (envvar);
+  for (i = 0; i < sizeof (names) / sizeof (names[0]); i++) {
+    char *const envvar = _orc_getenv (names[i]);
+    OrcTarget *target = NULL;
 
-    if (target != NULL)
+    if (envvar != NULL) {
+      target = orc_target_get_by_name (envvar);
+      free (envvar);
+    }
+
+    /* code for a backend that this CPU cannot execute must never become
+     * the default: callers run what they get */
+    if (target != NULL && target->executable)
       return target;
   }
 
